@@ -310,6 +310,14 @@ class P(Prop):
         for i in range(n):
             ast = BenchAst(rng)
             self.check_read(ast, ast.render())
+            if i % 3 == 0:
+                # history: a circuit whose nodes were first created as forward references (lines out of order) and defined
+                # later, then written out again
+                ast2 = BenchAst(rng, dff=False)
+                o2, c2 = call(cg.io.bench_to_circuit, ast2.render(), "fwd")
+                if o2 == "ok" and c2.inputs():
+                    self.stats.bump("history:read-then-write")
+                    self.check_roundtrip(c2)
             c = gen.circuit(rng, n_in=(1, 4), n_gates=(1, 7), consts=0.3, dead=False, out_inputs=0.1)
             if rng.random() < 0.2:
                 # a node whose name starts with an underscore (legal for the reader since K40)
